@@ -51,11 +51,11 @@ Qed.
 
 Definition ordf (l : list (list nat)) (s : nat) : list nat := nth s l [].
 
-Theorem replay_check_transfer nS nA P Rw av ab ini g eps ordl tol h ops solI VI :
-  @replay_check Q NumQ (mk_mdp nS nA P Rw av ab ini g) eps (ordf ordl) tol h ops solI VI =
+Theorem replay_check_transfer nS nA P Rw av ab ini g eps ordl tol h ops solI VI actI :
+  @replay_check Q NumQ (mk_mdp nS nA P Rw av ab ini g) eps (ordf ordl) tol h ops solI VI actI =
   @replay_check R NumR
      (mk_mdp nS nA (map3 Q2R P) (map3 Q2R Rw) av ab (map Q2R ini) (Q2R g))
-     (Q2R eps) (ordf ordl) (Q2R tol) (map Q2R h) (opsR ops) solI (map Q2R VI).
+     (Q2R eps) (ordf ordl) (Q2R tol) (map Q2R h) (opsR ops) solI (map Q2R VI) actI.
 Proof.
   apply list_R_bool_eq.
   apply (replay_check_R Q R QR NumQ NumR NumQR).
@@ -69,5 +69,6 @@ Proof.
   - apply ops_R_map.
   - apply list_R_bool_refl.
   - apply list_R_map1.
+  - apply list_R_nat_refl.
 Qed.
 Print Assumptions replay_check_transfer.
